@@ -6,6 +6,7 @@ import (
 	"sort"
 
 	mapset "github.com/deckarep/golang-set/v2"
+	"golang.org/x/exp/maps"
 
 	"github.com/smartcontractkit/libocr/offchainreporting2plus/ocr3types"
 	"github.com/smartcontractkit/libocr/offchainreporting2plus/types"
@@ -104,11 +105,15 @@ func (p *Plugin) Outcome(
 
 func (p *Plugin) getCommitReportsOutcome(observation exectypes.Observation) exectypes.Outcome {
 	// flatten commit reports and sort by timestamp.
+	// Iterate the chains in ascending order and sort stably: with randomized map iteration and an unstable
+	// sort, reports with equal timestamps would be ordered differently by different oracles.
 	var commitReports []exectypes.CommitData
-	for _, report := range observation.CommitReports {
-		commitReports = append(commitReports, report...)
+	chains := maps.Keys(observation.CommitReports)
+	sort.Slice(chains, func(i, j int) bool { return chains[i] < chains[j] })
+	for _, chain := range chains {
+		commitReports = append(commitReports, observation.CommitReports[chain]...)
 	}
-	sort.Slice(commitReports, func(i, j int) bool {
+	sort.SliceStable(commitReports, func(i, j int) bool {
 		return commitReports[i].Timestamp.Before(commitReports[j].Timestamp)
 	})
 
